@@ -264,9 +264,17 @@ def c11_z3state(R):
     be = util.methods_of(cls)["_batch_eval"]
     for c in _calls(be, nested=False):
         if isinstance(c.func, ast.Attribute) and c.func.attr == "add" and dotted(c.func.value) == "solver":
+            # the loop counter is whatever local the enclosing `for <i> in range(n)` binds
+            ctr = "i"
+            p_ = c
+            while p_ is not None and p_ is not be:
+                p_ = getattr(p_, "_parent", None)
+                if isinstance(p_, ast.For) and isinstance(p_.target, ast.Name) and ast.unparse(p_.iter) == "range(n)":
+                    ctr = p_.target.id
+                    break
             gs = [(ast.unparse(t), pol) for t, pol in guards.guards_of(c)]
             R.check(
-                ("i + 1 != n", True) in gs or ("i + 1 == n", False) in gs or ("n > 1", True) in gs or ("i + 1 < n", True) in gs,
+                (f"{ctr} + 1 != n", True) in gs or (f"{ctr} + 1 == n", False) in gs or ("n > 1", True) in gs or (f"{ctr} + 1 < n", True) in gs,
                 m,
                 c,
                 "blocking clause is added only when another iteration follows (so only when push() happened)",
